@@ -172,6 +172,14 @@ static void block_case(uint64_t nn, unsigned rep) {
 
 void run_C10(void) {
   const int th = G.thorough;
+  for (unsigned rep = 0; rep < (th ? 40u : 4u); rep++) {
+    if (!case_begin("q120 product kernels|8 threads,private operands", "rep=%u", rep)) continue;
+    uint64_t calls = 0;
+    q120_concurrent_kernel_check(8, crng(), th ? 60000 : 12000, &calls);
+    cnt("concurrent_kernel_calls", calls);
+    sample("8 threads x %" PRIu64 " kernel calls, every result congruent to the exact sum", calls / 8);
+    case_end(1);
+  }
   // products: every kernel, ref and avx2, ell classes x operand families
   for (int k = 0; k < N_KERNELS; k++)
     for (int avx2 = 0; avx2 <= 1; avx2++) {
